@@ -7,7 +7,7 @@ HARNESS_TEST = "TestC17"
 COQ_MODEL = ["C17/Check.v", "Gen/C17Facts.v", "C17/Current.v"]
 COQ_PROOF_DEPS = ["C17/Proofs.v", "C17/IcaList.v"]
 COQ_OBLIG = ["C17/Property.v", "Gen/C17Oblig.v"]
-CASES_HEADER = "Require Import Nib.C17.AnteFacts Nib.C17.MsgTree Nib.C17.Model Nib.C17.Spec Nib.C17.Check Nib.C17.Current."
+CASES_HEADER = "Require Import Nib.C17.AnteFacts Nib.C17.CarrierTree Nib.C17.Model Nib.C17.Spec Nib.C17.Check Nib.C17.Current."
 CASE_TYPE = "case"
 MISMATCH_FN = "mismatch current_cfg current_genesis_cfg"
 VIOLATES_FN = "violates"
@@ -15,7 +15,11 @@ RULE = ("case = history of 2-12 transactions on a fresh chain, each delivered in
         "BeginBlock/DeliverTx/EndBlock/Commit after advancing the clock (5 s .. 25 h); a transaction carries 1-3 message "
         "trees: MsgCreateValidator / MsgEditValidator (rates around the cap: 0.25, 0.25+1e-18, 0.9, ...; high max rates) "
         "/ MsgGrant / MsgSend at the top level or under 1-4 wrappers (authz MsgExec with self- or grant-based authority, "
-        "the reflect.wasm contract dispatching Stargate messages, gov MsgSubmitProposal), plus EVM / unknown extension "
+        "the reflect.wasm contract dispatching Stargate messages, gov MsgSubmitProposal, x/group MsgSubmitProposal with "
+        "Exec = TRY / unspecified for a one-vote group whose policy account (actor 12) is the operator — generated on every "
+        "tree: where the linked application does not route x/group the transaction must be rejected —, and, whenever the "
+        "run-time probe of the linked application reports a routed carrier type the driver has no constructor for, that type "
+        "filled by reflection), plus EVM / unknown extension "
         "options; about 1 case in 7 starts from a genesis carrying 1-3 gentxs (delivered by x/genutil from InitChain at block "
         "height 0: staking messages bare / under exec / behind harmless messages, around and above the cap) on a chain "
         "without pre-set validator; non-trivial = a staking message with rate > 0.25 sits under at least one wrapper, or an accepted "
@@ -28,6 +32,7 @@ ASSUMPTIONS = [
 ]
 TRUSTED = [
     "harness/gen/c17/antefacts (go/ast): decorator lists, extension-option switch arms, guard type tests/recursion, comparison sites, MAX_COMMISSION literal, wasm handler checks",
+    "harness/c17/carriers (run time, linked application): which registered sdk.Msg types the msg service router executes and which of their Any fields accept an sdk.Msg (the type's own UnpackInterfaces run on a packed MsgSend) / which have a []sdk.Msg accessor; carriers that hold messages as bytes (wasm, IBC packets) are invisible to it and modelled unconditionally",
 ]
 
 
@@ -36,7 +41,7 @@ def _z(s):
 
 
 KINDS = {"create": "MKLeaf K_CREATE", "edit": "MKLeaf K_EDIT", "grant": "MKLeaf K_GRANT", "send": "MKLeaf K_SEND",
-         "exec": "MKExec", "wasm": "MKWasm", "gov": "MKGov"}
+         "exec": "MKExec", "wasm": "MKWasm", "gov": "MKGov", "group": "MKGroup"}
 
 
 def _tree(n):
@@ -57,6 +62,10 @@ def _tree(n):
         return "Wasm %d 10 %s" % (n.get("g", 0), cs)
     if k == "gov":
         return "Gov %d %s" % (n.get("g", 0), cs)
+    if k == "group":
+        return "Group %d %d %s %s" % (n.get("g", 0), n.get("pol", 0), "true" if n.get("try") else "false", cs)
+    if k == "carrier":
+        return "Unk %d %d %s" % (n.get("u", 0), n.get("g", 0), cs)
     raise ValueError(k)
 
 
@@ -86,8 +95,9 @@ def to_coq_case(rec):
         gen = "(Some {| g_started := %s; g_vals := [%s]; g_allmax := %s |})" % (
             "true" if g["started"] else "false", _vals(g["vals"]), _z(g["allmax"]))
         setup = g.get("setup_dt", 0)
-    return ("{| c_min_rate := %s; c_cap_linked := %s; c_gentxs := [%s]; c_genesis := %s; c_setup_dt := (%d)%%Z; c_txs := [%s] |}" % (
-        _z(rec["input"].get("min_rate") or "0"), _z(rec.get("cap", "0")), "; ".join(_txterm(t) for t in gentxs), gen, setup,
+    return ("{| c_min_rate := %s; c_cap_linked := %s; c_group_linked := %s; c_gentxs := [%s]; c_genesis := %s; c_setup_dt := (%d)%%Z; c_txs := [%s] |}" % (
+        _z(rec["input"].get("min_rate") or "0"), _z(rec.get("cap", "0")), "true" if rec.get("group_routed") else "false",
+        "; ".join(_txterm(t) for t in gentxs), gen, setup,
         ";\n     ".join(items)))
 
 
@@ -164,6 +174,10 @@ def signature(rec):
                     path = "gentx"
                 elif not ws:
                     path = "top-level"
+                elif "group" in ws:
+                    path = "group-proposal"
+                elif "carrier" in ws:
+                    path = "unknown-carrier"
                 elif "wasm" in ws:
                     path = "wasm-stargate"
                 elif all(w == "exec" for w in ws):
@@ -229,7 +243,7 @@ def model_search(chk):
     os.makedirs(wd, exist_ok=True)
     path = os.path.join(wd, "sweep_C17.v")
     open(path, "w").write("""From Coq Require Import List Arith ZArith. Import ListNotations.
-Require Import Nib.C17.AnteFacts Nib.C17.MsgTree Nib.C17.Model Nib.C17.Spec Nib.C17.Check Nib.C17.Current Nib.C17.Sweep.
+Require Import Nib.C17.AnteFacts Nib.C17.CarrierTree Nib.C17.Model Nib.C17.Spec Nib.C17.Check Nib.C17.Current Nib.C17.Sweep.
 Set Printing Width 1000000. Set Printing Depth 1000000.
 Definition bad := Eval vm_compute in sweep_bad current_cfg.
 Print bad.
@@ -254,6 +268,10 @@ def _ex(g, *c):
 
 def _wa(*c):
     return {"k": "wasm", "g": 0, "c": list(c)}
+
+
+def _gp(p, *c):
+    return {"k": "group", "g": p, "pol": 12, "try": True, "c": list(c)}
 
 
 def _tx(signer, *msgs, dt=5, ext=""):
@@ -285,23 +303,31 @@ for _r in _R:
         {"min_rate": "0", "txs": [_tx(1, _ex(1, _ex(1, {"k": "send", "from": 1}), _cv(1, _r)))]},
         {"min_rate": "0", "txs": [_tx(0, _wa(_ex(10, {"k": "send", "from": 10}), _cv(10, _r)))]},
         {"min_rate": "0", "txs": [_tx(1, _cv(1, "100000000000000000")), _tx(1, _ex(1, {"k": "send", "from": 1}), {"k": "edit", "op": 1, "rate": _r}, dt=86400)]},
+        {"min_rate": "0", "txs": [_tx(1, _gp(1, _cv(12, _r)))]},
+        {"min_rate": "0", "txs": [_tx(1, _ex(1, _gp(1, _cv(12, _r))))]},
+        {"min_rate": "0", "txs": [_tx(0, _wa(_gp(10, _cv(12, _r))))]},
+        {"min_rate": "0", "txs": [_tx(1, _gp(1, {"k": "send", "from": 12}, _cv(12, _r)))]},
+        {"min_rate": "0", "txs": [_tx(1, _gp(1, _cv(12, "100000000000000000"))), _tx(1, _gp(1, {"k": "edit", "op": 12, "rate": _r}), dt=86400)]},
     ]
 
 MANIFEST = {
     "level_claimed": {
         "category": "proof",
         "text": ("Coq theorems over an executable model of DeliverTx (ante routing -> AnteDecoratorStakingCommission -> router "
-                 "with authz / wasm / gov / ICA dispatch -> x/staking create/edit rules): C17_cap_partial — after EVERY history "
+                 "with authz / wasm / gov / ICA / x/group dispatch -> x/staking create/edit rules): C17_cap_partial — after EVERY history "
                  "of transactions and passed proposals, for message trees of any depth/shape/sibling order, any grants and "
                  "clocks, every validator's commission is <= 25% (structural induction over message trees + induction over "
                  "histories); C17_no_tx_sets_rate_above_cap — the literal per-transaction statement from any pre-state. What "
                  "the decorator and the wasm handler do is not hand-written but re-extracted from /repo on every run "
                  "(decorator list, type-switch clauses, operands/comparison/bound, MsgExec recursion, early returns, "
-                 "MAX_COMMISSION literal, wasm handler check, extension-option routing) and the instantiated theorems "
+                 "MAX_COMMISSION literal, wasm handler check, extension-option routing; and, from the LINKED application at run "
+                 "time, the set of routed message types that carry sdk.Msgs — cfg_ok demands that each is one the model has a "
+                 "dispatch rule for and that x/group is not routed: C17_current_carriers_known) and the instantiated theorems "
                  "C17_holds_for_current_tree / C17_no_tx_sets_rate_above_cap_on_current_tree are re-checked. The model is run "
                  "against real BeginBlock/DeliverTx/EndBlock/Commit traces (accept/reject + every actor's commission after every "
                  "tx) and the proved-sound checker Pb is evaluated on those traces. Each needed fact has a refutation "
-                 "theorem with a concrete history (pre-fix decorator, one-level decorator, early return, no wasm check)."),
+                 "theorem with a concrete history (pre-fix decorator, one-level decorator, early return, no wasm check, "
+                 "gentx chain without decorator, x/group wired: C17_cap_refuted_group_wired)."),
         "design_ref": "DESIGN.md §5 C17",
     },
     "level_note": ("PARTIAL in two named hypotheses of C17_cap_partial: ica_safe (the ICA-host allow-list admits no staking "
@@ -311,6 +337,8 @@ MANIFEST = {
                    "the EndBlocker without any check; refuted without it). Trusted: Coq kernel + vm_compute; the go/ast "
                    "extractor harness/gen/c17/antefacts (textual normal forms); the Go driver and tools/props/c17.py; the "
                    "SDK/wasmd/ibc-go dispatch rules as modelled (authz, wasm, gov-submit pinned by the correspondence; ICA host "
-                   "and gov execution from reading the code). Funds/keys/descriptions assumed fine."),
+                   "and gov execution from reading the code; x/group submit+TRY pinned by the correspondence on the seeded tree "
+                   "C17-group-module-wired, M=0). Execution of STORED group proposals (group MsgVote/MsgExec) is not in the "
+                   "model: with x/group routed cfg_ok is false and nothing is claimed. Funds/keys/descriptions assumed fine."),
     "technique": "Coq proof (structural induction over message trees + induction over histories) over generated ante/wasm facts + differential correspondence on DeliverTx traces",
 }
